@@ -753,6 +753,20 @@ class Walker:
             self.emit("slicestore", node, st, arr=base.arr, idx=base.idx + idx, value=v, aug=aug, target=t)
             st.memver[base.arr.name] = st.memver.get(base.arr.name, 0) + 1
         else:
+            if aug is None and isinstance(node, ast.Assign) and isinstance(node.value, ast.BinOp) and isinstance(node.value.op, (ast.Add, ast.Sub)):
+                # `o.a[i] = o.a[i] + d` written out: the same update as `o.a[i] += d` (d re-evaluated only if it is call-free but for casts)
+                bo = node.value
+                tgt = unparse(t, 400)
+                for cur_n, d_n in ((bo.left, bo.right),) + (((bo.right, bo.left),) if isinstance(bo.op, ast.Add) else ()):
+                    if unparse(cur_n, 400) == tgt and all(cast_target(c.func) is not None for c in ast.walk(d_n) if isinstance(c, ast.Call)):
+                        buf = []
+                        self._buf.append(buf)          # swallow the events of the re-evaluation
+                        try:
+                            dv = self.ev(d_n, st)
+                        finally:
+                            self._buf.pop()
+                        aug = (bo.op, Opaque(("old", tgt)), dv)
+                        break
             self.emit("otherstore", node, st, base=base, idx=idx, value=v, aug=aug, target=t)
 
     # -- control flow ---------------------------------------------------
